@@ -36,7 +36,7 @@ CLAIMS = {
    "The input space is sampled (the property quantifies over all inputs up to several hundred KiB). A crash of the process in C code (signal) is attributed to the run by the driver and reported as process-crash."),
  "C03": ("store-sim", "exploration", "7.3",
    "deterministic simulation: seeded write histories with a jumping clock (non-monotone stamps, huge gaps, extreme counts) checked accepted=>reopens equal / rejected=>unchanged, plus torn and damaged metadata images fed to every reader entry point",
-   "Seeded histories whose timestamps come from a clock that jumps (equal, backwards, before the day's first block, gaps of 2^32-1 and beyond, negative) with summaries beyond 2^32-1 and counters near 2^64: every session is either rejected with the reopened day unchanged or accepted with the reopened day exactly equal to the model. Then >= 30 malformed variants of the real .blockmeta (every prefix in the thorough tier = what a torn metadata write leaves, bit flips, garbage, blown-up count/length fields) are fed to the reader, listing, query engine and the writer's open path; a panic or an allocation > 128 MiB for a KiB-sized database is a violation.",
+   "Seeded histories whose timestamps come from a clock that jumps (equal, backwards, before the day's first block, gaps of 2^32-1 and beyond, negative) with summaries beyond 2^32-1 and counters near 2^64: every session is either rejected with the reopened day unchanged or accepted with the reopened day exactly equal to the model. Then >= 30 malformed variants of the real .blockmeta (in the thorough tier every prefix of a metadata file of up to 400 bytes, and 400 prefixes of a larger one = what a torn metadata write leaves, bit flips, garbage, blown-up count/length fields) are fed to the reader, listing, query engine and the writer's open path; a panic or an allocation > 128 MiB for a KiB-sized database is a violation.",
    "Length fields in damaged metadata are clamped to 256 MiB (the reader allocates twice the declared length; larger values cost > 8 GiB per probe) - the allocation behaviour itself is reported as a known finding. A hang would surface as worker time-out (exit 2)."),
  "C05": ("store-sim", "fault_enumeration", "7.5",
    "deterministic simulation with fault injection: one injected errno (ENOSPC/EIO/EACCES/EMFILE/EPERM, partial write+ENOSPC) enumerated at every file-system call of every write-out of seeded histories, sticky disk-full spans and fault sequences; oracle against a reference store model after the fault clears",
